@@ -107,9 +107,56 @@ Proof. vm_compute. reflexivity. Qed.
 Theorem mutate_after_put_not_reverted :
   match run (sdb_new [] [] []) [OAGet 1; OAAdd 0 5; OAPut 0; OSnap]%N with
   | Ok d0 => match run d0 [OAAdd 0 3; ORollback 0]%N with
-             | Ok d1 => get_state d0 1%N = Ok (Some (5%N, [])) /\ get_state d1 1%N = Ok (Some (8%N, []))
+             | Ok d1 => get_state d0 1%N = Ok (Some (fl_set fl0 FBal 5, [])) /\ get_state d1 1%N = Ok (Some (fl_set fl0 FBal 8, []))
              | Panic => False
              end
+  | Panic => False
+  end.
+Proof. vm_compute. split; reflexivity. Qed.
+
+(** State.Clone copies every field except SourceHash, and GetAccountState / Reset hand out
+    Clones: fetching an AccountState for a deployed contract and putting it back unmodified
+    loses the source hash recorded by SetCode (known finding C12:clone-drops-sourcehash). *)
+Theorem clone_drops_source_hash :
+  match run (sdb_new [] [] []) [OAGet 7; OOpenAs 0; OSetCode 0 1 2; OAPut 0]%N with
+  | Ok d0 => match run d0 [OAGet 7; OAPut 1]%N with
+             | Ok d1 => get_state d0 7%N = Ok (Some (mk_fl 0 0 1 0 2, [])) /\
+                        get_state d1 7%N = Ok (Some (mk_fl 0 0 1 0 0, []))
+             | Panic => False
+             end
+  | Panic => False
+  end.
+Proof. vm_compute. split; reflexivity. Qed.
+
+(** SetRawKV (and the bytecode SetCode stores through it) goes to the store at once: it is
+    not part of any snapshot and survives a revert.  Keys are content hashes for code, so this
+    is harmless residue; for caller-chosen keys it is the documented contract of the call. *)
+Theorem raw_kv_survives_revert :
+  match run (sdb_new [] [] []) [OSnap; OOpen 7; ORawSet 0 1 5; ORollback 0; OClear; OOpen 7; ORawGet 0 1]%N with
+  | Ok d => x_last (d_x d) = [1; 5]%N
+  | Panic => False
+  end.
+Proof. vm_compute. reflexivity. Qed.
+
+(** SetCode through a handle opened with OpenContractStateAccount on a buffered account writes
+    CodeHash into the buffered entry in place (the handle embeds the buffered pointer): visible
+    without PutState and not undone by a revert.  The executor opens the contract state on the
+    AccountState's own newState instead (OOpenAs), for which C12_caller_side_invisible holds. *)
+Theorem set_code_through_buffered_state_not_reverted :
+  match run (sdb_new [] [] []) [OPut 7 3; OSnap; OOpen 7; OSetCode 0 4 0; ORollback 0]%N with
+  | Ok d => get_state d 7%N = Ok (Some (mk_fl 3 0 4 0 0, []))
+  | Panic => False
+  end.
+Proof. vm_compute. reflexivity. Qed.
+
+(** HasKey answers true for a key whose latest buffered write is a delete (Buffer.has looks at
+    the index only). *)
+Example has_key_true_for_buffered_delete :
+  match run (sdb_new [] [] []) [OOpen 7; ODel 0 1]%N with
+  | Ok d => match nth_error (d_heap d) 0 with
+            | Some st => has_key st 1%N = true /\ get_data d 0 1%N = Ok None
+            | None => False
+            end
   | Panic => False
   end.
 Proof. vm_compute. split; reflexivity. Qed.
